@@ -472,7 +472,23 @@ class Run:
                 return bool(safe_pred(stream, c, stream.impl([c])[0], shrunk=True))
             small = ddmin(ops, stream.keep_prefix, fails)
             io, mo = stream.both(small)
-            why = safe_pred(stream, small, io) or why
+            why2 = safe_pred(stream, small, io)
+            if why2 is None and getattr(stream, "timed", False):
+                # a stream with real waits: under heavy machine load a scenario clock can be off by more than the predicate's
+                # tolerance. A failure that three further runs of the very same case do not show again is not reported (it is
+                # counted in the evidence); a real violation of a timed property is deterministic in its case.
+                again = None
+                for _ in range(3):
+                    io, mo = stream.both(small)
+                    again = safe_pred(stream, small, io)
+                    if again:
+                        break
+                if not again:
+                    st["not_reproduced"] = st.get("not_reproduced", 0) + 1
+                    self.log(f"stream {stream.name}: a predicate failure did not reproduce in 4 re-runs (timing): {why[:160]}")
+                    continue
+                why2 = again
+            why = why2 or why
             info = dict(stream=stream.name, ops=small, impl=io, model=mo, why=why, kind="predicate")
             k = self.known_finding(info)
             if k:
@@ -493,6 +509,12 @@ class Run:
                 return stream.canon(c, a) != stream.canon(c, b)
             small = ddmin(ops, stream.keep_prefix, differs)
             io, mo = stream.both(small)
+            if getattr(stream, "timed", False) and stream.canon(small, io) == stream.canon(small, mo):
+                if not any(differs(small) for _ in range(3)):
+                    st["not_reproduced"] = st.get("not_reproduced", 0) + 1
+                    self.log(f"stream {stream.name}: a model/implementation difference did not reproduce in 4 re-runs (timing)")
+                    continue
+                io, mo = stream.both(small)
             why = safe_pred(stream, small, io)
             if why and getattr(stream, "compare_known", False) and \
                     self.known_finding(dict(stream=stream.name, ops=small, impl=io, model=mo, why=why, kind="predicate")):
